@@ -292,7 +292,7 @@ def gen_file_fault(rng, world, cmd):
         return {"type": "swap", "file": name, "with": rng.choice(others), "at_open": rng.randint(2, 3) if is_nc else 2}
     if r < 0.75:
         return {"type": "torn", "file": name, "frac": rng.random(), "max": 150 if is_nc else None}
-    mode = rng.choice(["empty", "dir", "garbage", "flip", "junk_text", "missing"] + (["nc_nodims", "nc_nodims"] if is_nc else []))
+    mode = rng.choice(["empty", "dir", "garbage", "flip", "junk_text", "missing"] + (["nc_nodims", "nc_nodims"] if is_nc else ["partial_line", "partial_line"]))
     return {"type": "corrupt", "file": name, "mode": mode, "frac": rng.random(), "byte": rng.randrange(256)}
 
 
